@@ -73,7 +73,7 @@ const pexBookCapacity = 256*65 + 64*65
 func pexScenario(cr *childRun, sid int) {
 	rng := lib.Rand("c08pex", int64(sid))
 	strict := sid%2 == 1
-	started := sid%3 != 2
+	started := sid == 1 && lib.Thorough() // see "save and reload" below
 	file := filepath.Join(cr.base, fmt.Sprintf("addrbook-%d.json", sid))
 	book := p2p.NewAddrBook(file, strict)
 	if started {
@@ -277,36 +277,36 @@ func pexScenario(cr *childRun, sid int) {
 		viol("pex-honest-request-not-answered-after-hostile-burst", fmt.Sprintf("an honest pexRequest got no answer (book size %d, honest connection closed: %v)", sz, h.isClosed()), map[string]interface{}{"goroutines": goroutineDump("p2p.(*PEXReactor)", "p2p.(*AddrBook)")})
 		return
 	}
-	// save and reload
+	// save and reload. AddrBook.Stop() cannot be used to force a save: BaseService.Stop calls
+	// OnStop (which waits for saveRoutine) before it closes Quit (which saveRoutine waits for),
+	// so it blocks forever; and angine.go never starts the book. The only reachable save is
+	// saveRoutine's two-minute ticker: waited for in one thorough scenario.
 	if started {
 		func() {
 			defer func() {
 				if r := recover(); r != nil {
-					viol("pex-addrbook-save-panic:"+stackSite(string(debug.Stack())), fmt.Sprintf("saving the address book after the hostile burst panicked: %v", r), map[string]interface{}{"stack": string(debug.Stack())})
+					fileHead, _ := readHead(file, 3000)
+					viol("pex-saved-addrbook-cannot-be-loaded:"+stackSite(string(debug.Stack())), fmt.Sprintf("the address book file written after the hostile burst makes the next start panic: %v", r), map[string]interface{}{"stack": string(debug.Stack()), "file_head": fileHead})
 				}
 			}()
-			book.Stop()
-		}()
-		if _, err := os.Stat(file); err == nil {
+			for time.Since(t0) < 125*time.Second {
+				time.Sleep(200 * time.Millisecond)
+			}
+			waitUntil(10*time.Second, func() bool { _, err := os.Stat(file); return err == nil })
+			if _, err := os.Stat(file); err != nil {
+				if sz > 0 {
+					cr.run.Count("pex_book_not_saved", 1)
+				}
+				return
+			}
 			cr.run.Count("pex_book_saved", 1)
-			func() {
-				defer func() {
-					if r := recover(); r != nil {
-						fileHead, _ := readHead(file, 3000)
-						viol("pex-saved-addrbook-cannot-be-loaded:"+stackSite(string(debug.Stack())), fmt.Sprintf("the address book file written after the hostile burst makes the next start panic: %v", r), map[string]interface{}{"stack": string(debug.Stack()), "file_head": fileHead})
-					}
-				}()
-				b2 := p2p.NewAddrBook(file, strict)
-				b2.Start()
-				cr.run.Count("pex_book_reloaded", 1)
-				if b2.Size() > pexBookCapacity {
-					viol("pex-addrbook-size-out-of-bounds", fmt.Sprintf("reloaded address book size %d", b2.Size()), nil)
-				}
-				b2.Stop()
-			}()
-		} else if sz > 0 {
-			cr.run.Count("pex_book_not_saved", 1)
-		}
+			b2 := p2p.NewAddrBook(file, strict)
+			b2.Start()
+			cr.run.Count("pex_book_reloaded", 1)
+			if b2.Size() > pexBookCapacity {
+				viol("pex-addrbook-size-out-of-bounds", fmt.Sprintf("reloaded address book size %d", b2.Size()), nil)
+			}
+		}()
 	}
 	cr.run.Count("pex_controls_passed", 1)
 	cr.run.Nontrivial(fmt.Sprintf("pex/%d", sid))
@@ -339,7 +339,9 @@ func pexFamily() *family {
 			run.Require("pex_hostile_inputs", int64(total*60))
 			run.Require("pex_controls_passed", int64(total*7/10))
 			run.Require("pex_input_kinds", 13)
-			run.Require("pex_book_reloaded", 1)
+			if lib.Thorough() {
+				run.Require("pex_book_reloaded", 1)
+			}
 		},
 	}
 }
